@@ -44,51 +44,43 @@ Proof.
 Qed.
 Print Assumptions C18_groups_disjoint.
 
-(** (3) Reload.  FULL STATEMENT (does not hold):
-      forall d t, 0 < d -> MinNano <= t <= MaxNano ->
-        the group g created for t satisfies reload_group g = g.
-    The faithful model refutes it: with the default 1h duration the window of
-    t = MinNanoTime starts at 1677-09-21T00:00:00Z, 763 s BEFORE MinInt64 ns;
-    [MarshalTime] = [Time.UnixNano] wraps, the reloaded group is [2262-.., 1677-..),
-    contains nothing, and neither a timestamp lookup nor a time-range query finds
-    it any more (confirmed on the real code, findings.d/C18.json). *)
-Theorem C18_reload_preserves_bounds_refuted :
-  exists d t, 0 < d /\ MinNano <= t <= MaxNano /\
-    exists st' g, client_create (init d) t = (st', Some g) /\ contains g t = true /\
-      reload_group g <> g /\ contains (reload_group g) t = false /\
-      by_timestamp (map reload_group (st_gs st')) t = None /\
-      range_ids (map reload_group (st_gs st')) t t = [].
+(** (3) Reload (full, since the start clamp of commit f8af500a39; before it the
+    statement was refuted by t = MinNanoTime, d = 1h, whose window starts before
+    MinInt64 ns — former finding shardgroup-start-before-int64-range).
+    After ANY history of duration changes, creates, batch writes, deletions and
+    earlier reloads, for all timestamps in [MinNanoTime, MaxNanoTime] and all
+    d > 0, persist + reload leaves every group of the policy unchanged. *)
+Theorem C18_reload_preserves_bounds :
+  forall d ops, 0 < d -> Forall valid_op ops ->
+    let gs := st_gs (final (init d) ops) in map reload_group gs = gs.
 Proof.
-  exists 3600000000000, MinNano. split; [lia|]. split; [unfold MinNano, MaxNano, MinInt64, MaxInt64; lia|].
-  eexists; eexists. split; [vm_compute; reflexivity|].
-  split; [vm_compute; reflexivity|]. split; [vm_compute; discriminate|].
-  repeat split; vm_compute; reflexivity.
+  intros d ops Hd Hv gs. pose proof (final_inv ops (init d) (init_inv d Hd) Hv) as (_ & HG & _).
+  apply reload_all_id. exact HG.
 Qed.
-Print Assumptions C18_reload_preserves_bounds_refuted.
+Print Assumptions C18_reload_preserves_bounds.
 
-(** Strongest true weakening: persist + reload is the identity on every policy
-    whose group bounds are int64-nanosecond instants ... *)
-Theorem C18_reload_preserves_bounds_partial :
-  forall gs, Forall InInt64 gs -> map reload_group gs = gs.
-Proof. exact reload_all_id. Qed.
-Print Assumptions C18_reload_preserves_bounds_partial.
-
-(** ... and the group created for [t] is such a group whenever the window of [t]
-    starts at or after MinInt64 ns — in particular whenever [t >= MinInt64 + d] —
-    whatever groups exist already. *)
-Theorem C18_created_group_survives_reload_partial :
+(** The group created for ANY timestamp in [MinNanoTime, MaxNanoTime] and any
+    d > 0 has int64 bounds and survives persist + reload — whatever groups exist
+    already (even ill-formed ones): its start lies in [MinNanoTime, t], its end in
+    (t, MaxNanoTime + 1]. *)
+Theorem C18_created_group_survives_reload :
   forall gs d t id, 0 < d -> MinNano <= t <= MaxNano ->
-    (MinInt64 <= truncate t d \/ MinInt64 + d <= t) ->
     let g := {| g_id := id; g_start := fst (new_bounds gs d t); g_end := snd (new_bounds gs d t);
                 g_del := false |} in
-    reload_group g = g.
+    reload_group g = g /\ contains (reload_group g) t = true.
 Proof.
-  intros gs d t id Hd Ht H g. apply reload_group_id.
-  assert (Htr : MinInt64 <= truncate t d).
-  { destruct H as [H|H]; [exact H|]. pose proof (truncate_gt t d Hd). lia. }
-  pose proof (created_in_int64 gs d t Hd Ht Htr) as K. exact K.
+  intros gs d t id Hd Ht g.
+  assert (E : reload_group g = g) by (apply reload_group_id, created_in_int64; assumption).
+  split; [exact E|]. rewrite E. unfold contains, g; cbn.
+  pose proof (new_bounds_contains gs d t Hd Ht). lia.
 Qed.
-Print Assumptions C18_created_group_survives_reload_partial.
+Print Assumptions C18_created_group_survives_reload.
+
+(** persist + reload is the identity on every policy whose bounds are int64 instants *)
+Theorem C18_reload_identity_on_int64_bounds :
+  forall gs, Forall GInv gs -> map reload_group gs = gs.
+Proof. exact reload_all_id. Qed.
+Print Assumptions C18_reload_identity_on_int64_bounds.
 
 (** DESIGN.md candidate F4 is NOT present in this tree: a bound exactly at the Unix
     epoch marshals to 0 and [ShardGroupInfo.unmarshal] maps 0 back to time.Unix(0,0). *)
@@ -119,3 +111,11 @@ Proof.
   split; [|vm_compute; reflexivity].
   repeat constructor; unfold in_range, MinNano, MaxNano, MinInt64, MaxInt64; cbn; lia.
 Qed.
+
+(** The former refutation witness (d = 1h, t = MinNanoTime) now round-trips: the
+    group is [MinNanoTime, 1677-09-21T01:00Z) before and after reload. *)
+Example C18_former_witness_fixed :
+  map (fun g => (g_start g, g_end g))
+      (st_gs (final (init 3600000000000) [OCreate MinNano; OReload])) =
+  [(MinNano, -9223369200000000000)].
+Proof. vm_compute. reflexivity. Qed.
